@@ -113,6 +113,20 @@ pub fn profile(name: &str) -> Profile {
             p_search: 0.3,
             ..base
         },
+        "bqmetric" => Profile {
+            // C12 end to end: quantised indexes, metric changes between the quantised metrics (same leaf layout,
+            // different header meaning) and to/from Cosine, searched after every build
+            name: "bqmetric",
+            metrics: &[Metric::BqEuclidean, Metric::BqManhattan, Metric::BqCosine, Metric::BqCosine, Metric::Cosine],
+            p_change_metric: 0.15,
+            dims: &[3, 5, 32, 64, 70],
+            multi_index: 0.2,
+            rounds: (2, 5),
+            ops_per_round: (1, 8),
+            max_ids: 10,
+            p_search: 0.7,
+            ..base
+        },
         "search" => Profile {
             name: "search",
             p_search: 1.0,
@@ -215,6 +229,8 @@ pub fn gen_history(seed: u64, p: &Profile) -> History {
     let mut metrics: Vec<Metric> = indexes.iter().map(|d| d.metric).collect();
 
     let mut ops = Vec::new();
+    // the vector last written under (index position, id): some overwrites are derived from it
+    let mut last: std::collections::HashMap<(usize, u32), Vec<u32>> = std::collections::HashMap::new();
     let rounds = rng.gen_range(p.rounds.0..=p.rounds.1);
     for _ in 0..rounds {
         let nops = rng.gen_range(p.ops_per_round.0..=p.ops_per_round.1);
@@ -258,7 +274,28 @@ pub fn gen_history(seed: u64, p: &Profile) -> History {
             } else if pick(0.27) {
                 ops.push(Op::Del { idx: d.idx, id });
             } else {
-                ops.push(Op::Add { idx: d.idx, id, v: gen_vector(&mut rng, d.dim, p, grid) });
+                // now and then an overwrite by a vector that the metric cannot tell from the old one although it points
+                // elsewhere: a quarter turn in the first two coordinates (inner product exactly 0), or a scaled copy
+                let derived = match last.get(&(which, id)) {
+                    Some(old) if d.dim >= 2 && rng.gen_bool(0.08) => {
+                        let o = crate::hist::unbits(old);
+                        let mut n = vec![0.0f32; d.dim];
+                        if rng.gen_bool(0.7) {
+                            n[0] = -o[1];
+                            n[1] = o[0];
+                        } else {
+                            let k = [2.0f32, 0.5, -1.0][rng.gen_range(0..3)];
+                            for j in 0..d.dim {
+                                n[j] = o[j] * k;
+                            }
+                        }
+                        Some(crate::hist::bits(&n))
+                    }
+                    _ => None,
+                };
+                let v = derived.unwrap_or_else(|| gen_vector(&mut rng, d.dim, p, grid));
+                last.insert((which, id), v.clone());
+                ops.push(Op::Add { idx: d.idx, id, v });
             }
         }
         // build every index that was touched (or a random one), in random order
@@ -281,6 +318,14 @@ pub fn gen_history(seed: u64, p: &Profile) -> History {
             ops.push(Op::Commit);
         } else if x < p.p_commit + p.p_abort {
             ops.push(Op::Abort);
+            // the round and its builds are gone; sometimes the very next thing is a build of the same index followed by
+            // a commit, with no update in between (what a long-lived Writer remembers of the aborted build is wrong now)
+            if rng.gen_bool(0.5) {
+                let which = rng.gen_range(0..indexes.len());
+                let d = &indexes[which];
+                ops.push(Op::Build { idx: d.idx, o: gen_opts(&mut rng, p, const_cap, fixed_split[which]) });
+                ops.push(Op::Commit);
+            }
         }
     }
     History { indexes, ops, map_size: 256 * 1024 * 1024, label: format!("{}:{}", p.name, seed), faults: vec![], max_polls: 5_000_000, sides: true }
